@@ -116,3 +116,19 @@ def shift_seg(seg, dx, dy):
     if k == "arc":
         return ("arc", sh(seg[1])) + tuple(seg[2:7]) + (sh(seg[7]),)
     return (k,) + tuple(sh(p) for p in seg[1:])
+
+
+def segs_close(H, s1, s2, tol):
+    """Same kinds in the same order, coordinates within tol (used where the code is allowed to snap by 1e-9)."""
+    if len(s1) != len(s2):
+        return False
+    parts = []
+    for a, b in zip(s1, s2):
+        if a[0] != b[0] or len(a) != len(b):
+            return False
+        fa, fb = list(_flat(a[1:])), list(_flat(b[1:]))
+        if len(fa) != len(fb):
+            return False
+        for x, y in zip(fa, fb):
+            parts.append(abs(x - y) <= tol)
+    return And(*parts) if parts else True
